@@ -147,7 +147,23 @@ impl Scenario for BusHistory {
                     };
                     case.push("w", &[reg, v]);
                 }
-                22 => case.push("j", &[rng.below(8) as i64, rng.below(2) as i64]),
+                22 => {
+                    if rng.chance(1, 2) {
+                        case.push("j", &[rng.below(8) as i64, rng.below(2) as i64]);
+                    } else {
+                        // STAT written and read back while LY = LYC (and once more after LYC moved away)
+                        case.push("lycm", &[]);
+                        case.push("w", &[0xff41, rng.byte() as i64]);
+                        case.push("r", &[0xff41]);
+                        case.push("w", &[0xff41, rng.byte() as i64]);
+                        case.push("r", &[0xff41]);
+                        if rng.chance(1, 2) {
+                            case.push("w", &[0xff45, rng.byte() as i64]);
+                            case.push("w", &[0xff41, rng.byte() as i64]);
+                            case.push("r", &[0xff41]);
+                        }
+                    }
+                }
                 _ => case.push("sweep", &[]),
             }
         }
@@ -179,9 +195,13 @@ impl Scenario for BusHistory {
                 ctx.cov.hit("probe.full_sweeps");
             }
             match op.k {
-                "w" | "ww" => {
-                    let a = op.arg(0) as u16;
-                    let mut bytes: Vec<(u16, u8)> = vec![(a, op.arg(1) as u8)];
+                "w" | "ww" | "lycm" => {
+                    // "lycm": LYC := the line the LCD is on right now, so that the writes and reads that follow meet LY = LYC
+                    let (a, v0) = if op.k == "lycm" { (0xff45u16, m.read(0xff44) as i64) } else { (op.arg(0) as u16, op.arg(1)) };
+                    if op.k == "lycm" {
+                        ctx.cov.hit("probe.lyc_set_to_current_line");
+                    }
+                    let mut bytes: Vec<(u16, u8)> = vec![(a, v0 as u8)];
                     if op.k == "ww" {
                         bytes.push((a.wrapping_add(1), (op.arg(1) >> 8) as u8));
                     }
